@@ -942,6 +942,14 @@ class EqCongurentPredMacro(Macro):
         else:
             preds_pair = [(preds[0].arg.lhs, preds[0].arg.rhs), (preds[0].arg.lhs, preds[0].arg.rhs)]
 
+        # Every argument position needs its equality: zip would leave trailing arguments unchecked.
+        atom1 = pred_fun.arg if pred_fun.is_not() else pred_fun
+        atom2 = concl.arg if concl.is_not() else concl
+        if len(atom1.strip_comb()[1]) != len(atom2.strip_comb()[1]):
+            raise VeriTException("eq_congruent_pred", "the number of arguments is not equal")
+        if len(preds) > 1 and len(args_pair) != len(preds_pair) or len(preds) == 1 and len(args_pair) > 2:
+            raise VeriTException("eq_congruent_pred", "the number of equalities does not match the number of arguments")
+
         for arg, pred in zip(args_pair, preds_pair):
             if arg == pred:
                 continue
